@@ -169,6 +169,8 @@ pub enum TlOp {
     IncKeys(u64),
     /// continue on a clone of the estimator (it has recorded everything the original has)
     CloneReplace,
+    /// `other.clone_from(&estimator)` onto an estimator of another geometry that has recorded other keys
+    CloneFromReplace,
 }
 
 #[derive(Clone, Default)]
@@ -296,6 +298,13 @@ fn tl_apply(l: &mut TinyLFU<u64>, r: &mut TlRef, cfg: &TlCfg, op: TlOp) {
         TlOp::CloneReplace => {
             let c = l.clone();
             *l = c;
+        }
+        TlOp::CloneFromReplace => {
+            let mut dst: TinyLFU<u64> = TinyLFU::new(cfg.size + 3, cfg.samples + 2, 0.3).unwrap();
+            dst.increment_hashed_key(77);
+            dst.increment_hashed_key(78);
+            dst.clone_from(l);
+            *l = dst;
         }
     }
 }
@@ -477,6 +486,7 @@ fn tl_ops(cfg: &TlCfg) -> Vec<TlOp> {
     }
     v.push(TlOp::TryReset);
     v.push(TlOp::Clear);
+    v.push(TlOp::CloneFromReplace);
     if cfg.key_ops {
         v.push(TlOp::IncKey(10));
         v.push(TlOp::IncKey(11));
@@ -538,6 +548,9 @@ fn tl_menu(prop: &str, tier: Tier) -> Vec<(TlCfg, usize, usize)> {
             for (fpr, samples) in [(0.6, 4usize), (0.9, 4), (0.99, 8), (0.3, 3), (1e-9, 2)] {
                 v.push((TlCfg { size: 2, samples, fpr, seeds: seeds[0], hashes: base_hashes.clone(), key_ops: false }, if big { 400_000 } else { 60_000 }, if big { 40 } else { 12 }));
             }
+            // two keys driven to the top of the counter range through the key-based entry points: lt/le/gt/ge/eq have
+            // to order 15 and 16 like any other pair
+            v.push((TlCfg { size: 8, samples: 64, fpr: 0.01, seeds: seeds[0], hashes: vec![], key_ops: true }, if big { 400_000 } else { 60_000 }, 36));
             // rows of 32 and more counters (word-at-a-time code paths): 33 raw hashes cover every counter index
             // modulo 32 in every row whatever the seeds; three accesses, then the reset of a 4-access window
             v.push((TlCfg { size: 32, samples: 4, fpr: 0.01, seeds: seeds[0], hashes: (0..33).collect(), key_ops: false }, if big { 2_000_000 } else { 400_000 }, 4));
@@ -886,6 +899,8 @@ pub fn run_sampled(prop: &'static str, tier: Tier) -> EngineReport {
     // exact answers themselves are not, and nothing is judged)
     menu.push((SlCfg { ctor: 0, max_cost: i64::MAX, samples: 2, costs: vec![i64::MAX - 1, 7], hasher: HKind::SipA, hashes: vec![0, 1] }, if big { 60 } else { 8 }));
     menu.push((SlCfg { ctor: 2, max_cost: -3, samples: 2, costs: vec![i64::MIN + 9, -7], hasher: HKind::Zero, hashes: vec![0, 1] }, if big { 60 } else { 8 }));
+    // hashed keys that agree in their low bits (any table that buckets by a few low bits sees them collide)
+    menu.push((SlCfg { ctor: 4, max_cost: 50, samples: 3, costs: vec![2, 9], hasher: HKind::Identity, hashes: vec![7, 7 + 256, 7 + 65536, 7 + (1 << 32)] }, if big { 60 } else { 7 }));
     if big {
         // wider alphabets: five hashed keys (ends and middle of the u64 range), more cost values
         menu.push((SlCfg { ctor: 3, max_cost: 100, samples: 4, costs: vec![-3, 1, 5], hasher: HKind::Fnv, hashes: vec![0, 1, 2, 1 << 32, u64::MAX] }, 60));
@@ -930,11 +945,20 @@ pub fn run_sampled(prop: &'static str, tier: Tier) -> EngineReport {
                         s.increment_hashed_key(1000 + k * 7919, (k as i64 % 5) + 1);
                     }
                     let mut bad = None;
+                    let mut first_cost: i64 = 1;
                     for call in 0..(3 * n as usize + 8) {
+                        if call == 2 && n > 0 {
+                            // a cost changed in place: whatever fill_sample remembers of earlier calls is stale now
+                            if !s.update_hashed_key(1000, 4242) {
+                                bad = Some(format!("update of tracked key 1000 returned false on a tracker with {} keys", n));
+                                break;
+                            }
+                            first_cost = 4242;
+                        }
                         let inp: Vec<(u64, i64)> = if call % 3 == 2 { vec![(5, 5)] } else { vec![] };
                         let got = s.fill_sample(inp.clone());
                         let want_len = if inp.len() >= samples { inp.len() } else { samples.min(inp.len() + n as usize) };
-                        let genuine = got[inp.len().min(got.len())..].iter().all(|(k, c)| *k >= 1000 && (*k - 1000) % 7919 == 0 && (*k - 1000) / 7919 < n && *c == (((*k - 1000) / 7919) as i64 % 5) + 1);
+                        let genuine = got[inp.len().min(got.len())..].iter().all(|(k, c)| *k >= 1000 && (*k - 1000) % 7919 == 0 && (*k - 1000) / 7919 < n && *c == if *k == 1000 { first_cost } else { (((*k - 1000) / 7919) as i64 % 5) + 1 });
                         let distinct: BTreeSet<u64> = got.iter().map(|x| x.0).collect();
                         if got.len() != want_len || !genuine || distinct.len() != got.len() || got[..inp.len().min(got.len())] != inp[..] {
                             bad = Some(format!("call #{} of fill_sample({:?}) on a tracker with {} keys and sample size {} returned {} pairs {:?}, expected {} genuine distinct pairs", call, inp, n, samples, got.len(), got, want_len));
